@@ -378,6 +378,51 @@ theorem precommit_quorum_decides (c : Cfg) (s : NodeState) (r b : Nat)
   simp only [hm, h1, h2, Option.isSome_some, if_true]
   exact enterCommit_decides c s r b hh hst.2 hm hb hv
 
+/-! ### the same at the level of one input of the receive routine (`Cons.step`) -/
+
+theorem drain_decided (c : Cfg) (fuel : Nat) (s : NodeState) (h : s.decided.isSome = true) :
+    drain c fuel s = s := by
+  cases fuel with
+  | zero => rfl
+  | succ f => unfold drain; simp [h]
+
+/-- **the precommit that completes the +2/3 majority makes the node decide**: a live node in round
+`r` that has precommitted and holds block `b` receives a precommit of round `r` which its vote set
+accepts and after which the round-`r` precommits have a +2/3 majority for `b` ⇒ after this input
+(own messages included) the node has decided `b` in round `r`. -/
+theorem step_commit_quorum_decides (c : Cfg) (s : NodeState) (v : Vote) (peer : Peer) (r b : Nat)
+    (hh : s.halted = false) (hd : s.decided = none) (hr : s.round = r)
+    (hst : Step.precommit.rank ≤ s.step.rank ∧ s.step.rank < Step.commit.rank)
+    (hv : v.typ = .precommit ∧ v.round = r)
+    (hadd : (s.votes.addVote c v peer).2 = true)
+    (hm : maj23Of ((s.votes.addVote c v peer).1.precommits (r : Int)) = some (some b))
+    (hb : s.lockedBlock = some b ∨ (s.proposalBlock = some b ∧ s.proposalParts = some b))
+    (hval : c.valid b = true) :
+    (step c s (.vote v peer)).decided = some (b, (r : Int)) := by
+  have h1 : handleInput c s (.vote v peer) = afterPrecommit c { s with votes := (s.votes.addVote c v peer).1 } r := by
+    show addVote c s v peer = _
+    unfold addVote
+    simp [hadd, hv.1, hv.2]
+  have h2 := precommit_quorum_decides c { s with votes := (s.votes.addVote c v peer).1 } r b
+    (by simpa using hh) (by simpa using hr) (by simpa using hst) (by simpa using hm) (by simpa using hb) hval
+  unfold step
+  simp only [hh, hd, Bool.false_eq_true, Option.isSome_none, or_self, if_false]
+  rw [h1, drain_decided c _ _ (by rw [h2]; rfl)]
+  exact h2
+
+/-- **the block arriving in the commit step makes the node decide** (input level) -/
+theorem step_block_in_commit_step_decides (c : Cfg) (s : NodeState) (r b : Nat)
+    (hh : s.halted = false) (hd : s.decided = none) (hst : s.step = .commit) (hcr : s.commitRound = (r : Int))
+    (hm : maj23Of (s.votes.precommits (r : Int)) = some (some b))
+    (hp : s.proposalParts = some b) (hpd : s.partsDone = false) (hv : c.valid b = true) :
+    (step c s (.blockComplete b)).decided = some (b, (r : Int)) := by
+  have h2 := commit_step_block_arrival_decides c s r b hh hst hcr hm hp hpd hv
+  unfold step
+  simp only [hh, hd, Bool.false_eq_true, Option.isSome_none, or_self, if_false]
+  show (drain c drainFuel (addBlockPart c s b)).decided = _
+  rw [drain_decided c _ _ (by rw [h2]; rfl)]
+  exact h2
+
 /-- a node that has decided ignores every further input (`step` is the identity) -/
 theorem step_decided (c : Cfg) (s : NodeState) (i : Input) (h : s.decided.isSome = true) :
     step c s i = s := by
